@@ -380,3 +380,40 @@ def check_scenario(case, ctx):
 
 
 SUBS.append(Sub('scenario', check_scenario, enumerate=scenario_cases, shards_quick=1, shards_thorough=1))
+
+
+# --------------------------------------------------------------------------- parsed texts with well- and misplaced @namespace rules
+
+FRAGMENTS = ['@namespace a "%s";' % P, '@namespace a "%s";' % Q, '@namespace "%s";' % D, '@namespace b "%s";' % P, 'x { top: 0 }',
+             'a|y { top: 0 }', 'b|z { top: 0 }', '@media print { a|m { top: 0 } }', '/* c */', '@import "i.css";', '*|w, |v, u { top: 0 }',
+             '[a|t], [s] { top: 0 }', '@foo;', '@namespace c "%s";' % N, 'c|r:not(a|q) { top: 0 }']
+parsed_strategy = st.fixed_dictionaries({
+    'parts': st.lists(st.integers(0, len(FRAGMENTS) - 1), min_size=1, max_size=7),
+    'assign': st.booleans(),
+})
+
+
+def check_parsed(case, ctx):
+    text = ' '.join(FRAGMENTS[i] for i in case['parts'])
+    saved = cssutils.log.raiseExceptions
+    cssutils.log.raiseExceptions = False
+    try:
+        try:
+            if case['assign']:
+                sheet = cssutils.CSSParser(fetcher=fetcher).parseString('@namespace a "%s"; a|k { top: 0 }' % P)
+                sheet.cssText = text
+            else:
+                sheet = cssutils.CSSParser(fetcher=fetcher).parseString(text)
+        except Exception as e:  # noqa: BLE001
+            raise Violation('crash:parse:' + frame_sig(e), f'{text!r}: {e!r}')
+        check_sheet(sheet, {}, f'parse of {text!r}', 'parsed')
+        # a selector can only resolve through a declaration that precedes it in the text
+        ns_seen = {}
+        body = False
+    finally:
+        cssutils.log.raiseExceptions = saved
+    kinds = {FRAGMENTS[i].split()[0] for i in case['parts']}
+    ctx.case(text, '@namespace' in kinds and len(kinds) >= 2, {'text': text, 'result': sheet.cssText.decode('utf-8', 'replace')})
+
+
+SUBS.append(Sub('parsed', check_parsed, strategy=parsed_strategy, quick=4000, thorough=150000, shards_quick=8, budget_quick=60))
